@@ -34,9 +34,15 @@ func scenarios() []scenario {
 	r := run.Rand("scenarios", 0)
 	add := func(sc scenario) {
 		sc.Seed = r.Int63()
+		if run.Quick() && !sc.Tamper && !sc.Plain {
+			sc.Short = 4000
+		}
 		t := ""
 		if sc.Tamper {
 			t = "tamper-"
+			if sc.Cold {
+				t = "tamper-cold-"
+			}
 		}
 		if sc.Plain {
 			t = "plain-"
@@ -56,15 +62,16 @@ func scenarios() []scenario {
 	// positive control of the cleartext monitor
 	add(scenario{Kind: "play", Transport: "tcp", Plain: true, Formats: []int{1}, Packets: 1500})
 	add(scenario{Kind: "play", Transport: "udp", Plain: true, Formats: []int{1}, Packets: 1500})
-	// (a) + (b)
+	// (a) + (b); quick: two long conversations (second wrap of flow 0, late joiners with ROC 1 and 2), the others stop after the first wrap
+	short := run.Pick(6000, long)
 	add(scenario{Kind: "play", Transport: "udp", Formats: []int{2, 1}, Packets: long, Joiners: joiners()})
 	add(scenario{Kind: "play", Transport: "tcp", Formats: []int{3}, Packets: long, Joiners: joiners()})
-	add(scenario{Kind: "record", Transport: "udp", Formats: pick(), Packets: long})
-	add(scenario{Kind: "record", Transport: "tcp", Formats: pick(), Packets: long})
-	add(scenario{Kind: "backchannel", Transport: "tcp", Formats: []int{1}, Packets: long})
-	add(scenario{Kind: "backchannel", Transport: "udp", Formats: []int{1}, Packets: run.Pick(8000, long)})
+	add(scenario{Kind: "record", Transport: "tcp", Formats: pick(), Packets: short})
+	add(scenario{Kind: "backchannel", Transport: "udp", Formats: []int{1}, Packets: short})
+	add(scenario{Kind: "record", Transport: "udp", Formats: pick(), Packets: short})
+	add(scenario{Kind: "backchannel", Transport: "tcp", Formats: []int{1}, Packets: short})
 	if rig.MulticastIP() != "" {
-		add(scenario{Kind: "play", Transport: "mcast", Formats: []int{1, 1}, Packets: run.Pick(8000, long), Joiners: []int{3000}})
+		add(scenario{Kind: "play", Transport: "mcast", Formats: []int{1, 1}, Packets: short, Joiners: []int{3000}})
 	} else {
 		run.Count("multicast-skipped(no-interface)", 1)
 	}
@@ -77,10 +84,13 @@ func scenarios() []scenario {
 		}
 	}
 	// (c) tamper: short flows (the sequence number identifies the packet: no second wrap)
-	tp := run.Pick(6000, 50000)
+	tp := run.Pick(5000, 50000)
 	for _, tr := range []string{"udp", "tcp"} {
 		add(scenario{Kind: "play", Transport: tr, Tamper: true, Formats: []int{2}, Packets: tp})
 		add(scenario{Kind: "record", Transport: tr, Tamper: true, Formats: []int{1, 1}, Packets: tp})
+		// from the very first packet (the first packet of every format arrives with an altered SSRC)
+		add(scenario{Kind: "play", Transport: tr, Tamper: true, Cold: true, Formats: []int{2}, Packets: 1500})
+		add(scenario{Kind: "record", Transport: tr, Tamper: true, Cold: true, Formats: []int{1, 1}, Packets: 1500})
 		if !run.Quick() {
 			add(scenario{Kind: "backchannel", Transport: tr, Tamper: true, Formats: []int{1}, Packets: tp})
 			add(scenario{Kind: "play", Transport: tr, Tamper: true, Formats: []int{3}, Packets: tp})
@@ -145,7 +155,7 @@ func main() {
 	}
 
 	// scenarios, a few at a time (each one is concurrent inside)
-	sem := make(chan struct{}, 4)
+	sem := make(chan struct{}, 6)
 	var wg sync.WaitGroup
 	for _, sc := range scs {
 		wg.Add(1)
@@ -158,6 +168,11 @@ func main() {
 	}
 	wg.Wait()
 	pprof.StopCPUProfile()
+	if pf := os.Getenv("VERIF_C17_PROF"); pf != "" {
+		f, _ := os.Create(pf + ".heap")
+		_ = pprof.Lookup("allocs").WriteTo(f, 0)
+		f.Close()
+	}
 	run.ReportRaces()
 	run.Assume("a reader's SETUP (roll-over counter snapshot in MIKEY) and the first packet it receives lie on the same side of a sequence-number wrap: writers hold back the ~96 packets before a wrap while a reader joins (RFC 3711 / MIKEY signal the ROC once; a receiver cannot synchronise otherwise)")
 	run.Assume("UDP: in-order subsequence; every receiver must still receive sentinel packets after the load (a receiver whose SRTP context lost synchronisation would not); tamper scenarios allow 2% loss of untampered UDP packets")
